@@ -5,6 +5,8 @@ import vlib, kapi
 
 
 class P11:
+    EXTRA_ENV = {}      # merged into the environment of every driver process (e.g. the sanitizer runtime for the asan build)
+
     def __init__(self, p11drv, lib, mechanisms=None, backend='file', umask=None, env_extra=None, keep=False, reuse=None):
         if reuse:
             self.dir = reuse
@@ -17,6 +19,7 @@ class P11:
             self.conf = vlib.write_conf(self.dir, backend=backend, mechanisms=mechanisms, umask=umask)
         env = dict(os.environ)
         env['SOFTHSM2_CONF'] = self.conf
+        env.update(P11.EXTRA_ENV)
         if env_extra:
             env.update(env_extra)
         self.p = subprocess.Popen([p11drv, lib, '-'], stdin=subprocess.PIPE, stdout=subprocess.PIPE, text=True, bufsize=1, env=env)
